@@ -8,7 +8,17 @@
 // cache ages, cache limit; the hashes held in the NodeDatabase write-back cache; the
 // keys of the disk database) plus the model state.  After every transition the
 // independent reference (verif/h/refmpt, Yellow Paper appendix D) is compared with
-// all observables over the closed key universe.
+// all observables over the closed key universe: Hash()==reference root, every key
+// reads the model value, the iterator yields exactly the live pairs in ascending
+// key order, and a reopened trie equals the trie built from empty with that content.
+//
+// The observers run on the throw-away instance *after* the state key was taken, so
+// they do not normalise the representation of the states that are explored further
+// (Hash/Get/iteration are operations of the alphabet as well).
+//
+// Developer knobs (not used by ./check): C02_DEPTH, C02_DEPTH8, C02_DEPTH7,
+// C02_SEED_DEPTH override phase depths, C02_KEY=lean drops NodeDatabase/disk from the
+// state key, C02_PPROF=file writes a CPU profile.
 package main
 
 import (
@@ -78,9 +88,10 @@ const (
 	opReopen
 	opLimit
 	opIter
+	opCap
 )
 
-var kindName = []string{"update", "delete", "get", "hash", "commitmem", "commitdisk", "reopen", "limit", "iter"}
+var kindName = []string{"update", "delete", "get", "hash", "commitmem", "commitdisk", "reopen", "limit", "iter", "cap"}
 
 type op struct {
 	Kind opKind
@@ -101,7 +112,7 @@ func newAlphabet(keys [][]byte, vals []int) *alphabet {
 		a.ops = append(a.ops, op{opDelete, k, 0})
 		a.ops = append(a.ops, op{opGet, k, 0})
 	}
-	for _, kd := range []opKind{opHash, opCommitMem, opCommitDisk, opReopen, opLimit, opIter} {
+	for _, kd := range []opKind{opHash, opCommitMem, opCommitDisk, opReopen, opLimit, opIter, opCap} {
 		a.ops = append(a.ops, op{Kind: kd})
 	}
 	return a
@@ -322,6 +333,11 @@ func (in *inst) step(o op) {
 			in.tr.SetCacheLimit(1)
 		case opIter:
 			in.checkIter("op")
+		case opCap:
+			// flush the whole write-back cache of the NodeDatabase to disk and evict it
+			if err := in.ndb.Cap(0); err != nil {
+				in.fail("C02:error:cap", "op", "NodeDatabase.Cap(0): %v", err)
+			}
 		}
 	})
 	if p {
@@ -619,7 +635,12 @@ func (s *shardedSet) has(k [16]byte) bool {
 	s.mu[i].Unlock()
 	return ok
 }
-func (s *shardedSet) add(k [16]byte) { i := k[0]; s.mu[i].Lock(); s.m[i][k] = struct{}{}; s.mu[i].Unlock() }
+func (s *shardedSet) add(k [16]byte) {
+	i := k[0]
+	s.mu[i].Lock()
+	s.m[i][k] = struct{}{}
+	s.mu[i].Unlock()
+}
 
 type shardedNext struct {
 	mu [nShards]sync.Mutex
@@ -788,7 +809,9 @@ func phases(thorough bool) []phase {
 		{"full-mixed-dirty/8keys", a8, seedHist(a8, []int{2, 1, 5, 3, 4}), sd},
 		{"full-mixed-memcommitted/8keys", a8, seedHist(a8, []int{2, 1, 5, 3, 4}, opCommitMem, opCommitMem), sd},
 		{"full-mixed-reopened/8keys", a8, seedHist(a8, []int{2, 1, 5, 3, 4}, opCommitDisk, opReopen), sd},
-		{"empty/4keys", a4, nil, d("C02_DEPTH", 7)},
+		{"empty/4keys", a4, nil, d("C02_DEPTH", 6)},
+		// depth 7 on the value alphabet {empty, 1 B, 29 B, 32 B}
+		{"empty/4keys/3values", newAlphabet(keysQuick, []int{0, 1, 2, 4}), nil, d("C02_DEPTH7", 7)},
 	}
 }
 
@@ -1054,7 +1077,9 @@ func replay(c *fw.Ctx, raw json.RawMessage) {
 func main() {
 	fw.Main(fw.Check{
 		ID: "C02", Level: "model_checking",
-		Rule: "explicit-state BFS over all operation histories up to the depth bound on the real trie (fresh instance + replay per transition); " +
+		Rule: "explicit-state BFS, per phase over ALL operation histories seed.h with |h| <= depth (seed = empty history or a fixed history that fills the key universe " +
+			"and leaves it dirty / committed-and-unloaded / reopened; see coverage.bounds) on the real trie (fresh instance + replay per transition); " +
+			"ops: update(k,v) for v in {empty,1,29,31,32,40 B}, delete(k), get(k), hash, commit (trie only), commit+NodeDatabase.Commit, reopen, SetCacheLimit(1), NodeDatabase.Cap(0), full iteration; " +
 			"states merged on implementation dump (node graph with kinds/keys/dirty/cached-hash/age, NodeDatabase cache, disk keys) + model; " +
 			"a history is distinct by construction (shortest history of its source state + one op) and non-trivial when its final trie holds >= 2 keys " +
 			"and the history changed the canonical shape by a branch split, a branch collapse or a short-node merge, or produced an embedded (<32 B) node",
